@@ -766,6 +766,7 @@ def check(rep):
                 'boundary-spaced broker and application phases, fragmented inbound bytes, open/close/check_for_errors) on the '
                 'virtual clock for T in {0,1,2,3,10,60,600}, with reads/writes injected between the phases of a running check; '
                 'distinct = distinct (T, history); non-trivial = the history fires at least one timer')
+    rep.rule += '; plus: traces of locally failing writes, a third of the simulated connections stated as URIs (?heartbeat=T), and a two-thread test: heartbeat timer next to a caller waiting for Channel.OpenOk'
     rep.assumptions = [
         'virtual time: timers fire exactly at their deadline and callbacks take no time (OS timer jitter and callback run time are outside the model)',
         'start()/stop() are not interleaved with a running _check_for_life_signs (that race is defect D8 / property C08); reads and writes are',
